@@ -63,3 +63,8 @@ pub proof fn lemma_fee_sum(g: nat, s1: nat, s2: nat, s3: nat)
     assert(DEC * q <= DEC * g) by(nonlinear_arith) requires DEC * q <= g * DEC;
     assert(q <= g) by(nonlinear_arith) requires DEC * q <= DEC * g, DEC > 0;
 }
+pub proof fn lemma_div_bound(n: nat, d: nat) requires d > 0 ensures n / d <= n
+{
+    lemma_div_is_ordered_by_denominator(n as int, 1, d as int);
+    lemma_div_basics(n as int);
+}
